@@ -119,22 +119,48 @@ impl<'a> G<'a> {
                 t(b.to_string(), format!("(lit (bool {}))", b), 0)
             }
             CT::S => {
+                // characters verbatim or through an escape of the literal syntax
+                const SPELLED: &[(&str, &str)] = &[("\\u00e9", "é"), ("\\x41", "A"), ("\\n", "\n"), ("\\101", "A"), ("\\U0001F600", "😀"),
+                                                   ("\\u0080", "\u{80}"), ("\\'", "'"), ("\\\\", "\\"), ("\\xe9", "é")];
                 let n = self.rng.below(4);
-                let mut s = String::new();
+                let (mut src, mut s) = (String::new(), String::new());
                 for _ in 0..n {
-                    s.push_str(*self.rng.pick(S_ALPHA));
+                    if self.rng.chance(1, 4) {
+                        let (sp, v) = *self.rng.pick(SPELLED);
+                        src.push_str(sp);
+                        s.push_str(v);
+                    } else {
+                        let v = *self.rng.pick(S_ALPHA);
+                        src.push_str(v);
+                        s.push_str(v);
+                    }
                 }
-                t(format!("'{}'", s), format!("(lit {})", sx_str(&s)), 0)
+                t(format!("'{}'", src), format!("(lit {})", sx_str(&s)), 0)
             }
             CT::Y => {
+                // bytes through \x, octal, and characters (verbatim or escaped) that stand for their UTF-8
+                const SPELLED: &[(&str, &[u8])] = &[("\\u00e9", &[0xc3, 0xa9]), ("é", &[0xc3, 0xa9]), ("\\u0080", &[0xc2, 0x80]), ("\\377", &[255]),
+                                                    ("\\xe9", &[0xe9]), ("\\X80", &[0x80]), ("\\u20ac", &[0xe2, 0x82, 0xac]),
+                                                    ("\\U0001F600", &[0xf0, 0x9f, 0x98, 0x80]), ("\\u007f", &[0x7f]), ("a", &[97])];
                 let n = self.rng.below(4);
-                let b: Vec<u8> = (0..n).map(|_| *self.rng.pick(&[0u8, 1, 97, 98, 127, 128, 255])).collect();
+                let (mut src, mut b) = (String::new(), Vec::<u8>::new());
+                for _ in 0..n {
+                    if self.rng.chance(1, 3) {
+                        let (sp, v) = *self.rng.pick(SPELLED);
+                        src.push_str(sp);
+                        b.extend_from_slice(v);
+                    } else {
+                        let x = *self.rng.pick(&[0u8, 1, 97, 98, 127, 128, 255]);
+                        src.push_str(&format!("\\x{:02x}", x));
+                        b.push(x);
+                    }
+                }
                 let mut w = String::from("(lit (bytes");
                 for x in &b {
                     w.push_str(&format!(" {}", x));
                 }
                 w.push_str("))");
-                t(lit_b(&b), w, 0)
+                t(format!("b'{}'", src), w, 0)
             }
             CT::N | CT::Any => t("null".into(), "(lit null)".into(), 0),
             CT::L(e) => {
